@@ -59,26 +59,49 @@ func findTokenConsumers(p *core.Program, rel string) []*tokenConsumer {
 			continue
 		}
 		tc := &tokenConsumer{fn: fn, tok: tk}
-		for _, ci := range core.Calls(fn) {
-			if cv := core.CallValue(ci); cv != nil && core.IsMethodNamed(ci, "Step") && len(core.Args(ci)) == 1 && core.Strip(core.Args(ci)[0]) == tk {
+		for _, ci := range core.CallsR(fn) {
+			if cv := core.CallValue(ci); cv != nil && core.IsMethodNamed(ci, "Step") && len(core.Args(ci)) == 1 && tc.isTok(core.Args(ci)[0]) {
 				tc.steps = append(tc.steps, cv)
 			}
 		}
 		out = append(out, tc)
 	}
-	return out
+	// a consumer that another consumer expands as a helper (an arm of the decoder split off into its own function) is
+	// analysed as part of that consumer, with the token, budget and options of the real decoder function in view
+	var roots []*tokenConsumer
+	for _, tc := range out {
+		absorbed := false
+		for _, other := range out {
+			if other != tc && core.RegionOf(other.fn).Has(tc.fn) {
+				absorbed = true
+			}
+		}
+		if !absorbed {
+			roots = append(roots, tc)
+		}
+	}
+	return roots
 }
 
-func (tc *tokenConsumer) isTok(v ssa.Value) bool { return core.Strip(v) == tc.tok }
+func (tc *tokenConsumer) isTok(v ssa.Value) bool {
+	return core.Strip(v) == tc.tok || core.RegionOf(tc.fn).Canon(v) == tc.tok
+}
 
 // fieldLoad: v is a load of token field name.
 func (tc *tokenConsumer) fieldLoad(v ssa.Value, name string) bool {
-	return core.IsLoadOfField(v, tc.isTok, name)
+	if core.IsLoadOfField(v, tc.isTok, name) {
+		return true
+	}
+	// a helper's parameter that was handed the field's value at the call site
+	if w := core.RegionOf(tc.fn).Canon(v); w != core.Strip(v) {
+		return core.IsLoadOfField(w, tc.isTok, name)
+	}
+	return false
 }
 
 // derivesFromField: v's slice (through arithmetic, conversions, phis, len) contains a load of the token field.
 func (tc *tokenConsumer) derivesFromField(v ssa.Value, names ...string) bool {
-	sl := core.BackSlice(v, core.SliceOpts{ThroughCallsIf: func(c *ssa.Call) bool {
+	sl := core.BackSlice(v, core.SliceOpts{Region: core.RegionOf(tc.fn), ThroughCallsIf: func(c *ssa.Call) bool {
 		b, ok := c.Call.Value.(*ssa.Builtin)
 		return ok && (b.Name() == "len" || b.Name() == "cap")
 	}})
@@ -241,98 +264,26 @@ func enumSwitches(p *core.Program, rel string, keep func(*types.Named) bool) []s
 // reachTyped is core.Reach made path-sensitive in one fact: the constant the
 // token's Type field is known to equal. Edges of comparisons Token.Type ==/!= K
 // that contradict the known constant are infeasible. The fact is dropped when
-// the token is handed to a call (which may refill it); Step calls are expected
+// the token is handed to an opaque call (which may refill it); Step calls are expected
 // to be barriers. This is what lets `if tk.Tagged && tk.Type != TBytes
 // {return}` be understood: the tagged edge carries Type == TBytes into the
-// switch, where only the TBytes arm is feasible.
+// switch, where only the TBytes arm is feasible. Helpers of the decoder function are
+// expanded (core/region.go), so an arm moved into a helper stays on the path.
 func (tc *tokenConsumer) reachTyped(from ssa.Instruction, target func(ssa.Instruction) bool, blocked map[core.Edge]bool, barrier func(ssa.Instruction) bool) ([]*ssa.BasicBlock, bool) {
-	fn := tc.fn
-	type state struct {
-		b     *ssa.BasicBlock
-		known string
-	}
-	type item struct {
-		st    state
-		start int
-		prev  *item
-	}
-	seen := map[state]bool{}
-	var queue []*item
-	if from == nil {
-		s := state{fn.Blocks[0], ""}
-		seen[s] = true
-		queue = append(queue, &item{s, 0, nil})
-	} else {
-		b := from.Block()
-		idx := 0
-		for i, in := range b.Instrs {
-			if in == from {
-				idx = i + 1
+	isType := func(v ssa.Value) bool { return tc.fieldLoad(v, "Type") }
+	drop := func(in ssa.Instruction) bool {
+		ci, ok := in.(ssa.CallInstruction)
+		if !ok {
+			return false
+		}
+		for _, a := range ci.Common().Args {
+			if tc.isTok(a) {
+				return true
 			}
 		}
-		queue = append(queue, &item{state{b, ""}, idx, nil})
+		return false
 	}
-	for len(queue) > 0 {
-		it := queue[0]
-		queue = queue[1:]
-		known := it.st.known
-		stopped := false
-		for i := it.start; i < len(it.st.b.Instrs); i++ {
-			in := it.st.b.Instrs[i]
-			if target(in) {
-				var path []*ssa.BasicBlock
-				for x := it; x != nil; x = x.prev {
-					path = append([]*ssa.BasicBlock{x.st.b}, path...)
-				}
-				return path, true
-			}
-			if barrier != nil && barrier(in) {
-				stopped = true
-				break
-			}
-			if ci, ok := in.(ssa.CallInstruction); ok {
-				for _, a := range ci.Common().Args {
-					if tc.isTok(a) {
-						known = ""
-					}
-				}
-			}
-		}
-		if stopped {
-			continue
-		}
-		for si, s := range it.st.b.Succs {
-			e := core.Edge{From: it.st.b, Succ: si}
-			if blocked[e] {
-				continue
-			}
-			nk := known
-			if r, ok := core.EdgeRel(e); ok && (r.Op == token.EQL || r.Op == token.NEQ) {
-				x, y := r.X, r.Y
-				if core.ConstVal(x) != nil {
-					x, y = y, x
-				}
-				if cv := core.ConstVal(y); cv != nil && tc.fieldLoad(x, "Type") {
-					k := cv.ExactString()
-					if r.Op == token.EQL {
-						if known != "" && known != k {
-							continue // infeasible
-						}
-						nk = k
-					} else if known == k {
-						continue // infeasible
-					}
-				}
-			}
-			ns := state{s, nk}
-			if seen[ns] {
-				continue
-			}
-			seen[ns] = true
-			queue = append(queue, &item{ns, 0, it})
-		}
-	}
-	return nil, false
+	return core.ReachFactDrop(tc.fn, from, target, blocked, barrier, isType, "", drop)
 }
 
 // enumSwitchesTypeSwitchDefaults reports, for every type switch in the named function of package rel, whether its default clause panics.
